@@ -130,10 +130,13 @@ def _small_model(path, neg, m, opts):
     return m2 if r2 == "sat" else m
 
 
-def prove_eqs(path, eqs, split_vars, out, opts, split_vars2=()):
+def prove_eqs(path, eqs, split_vars, out, opts, split_vars2=(), groups=None):
     """claim: a == b for every (a, b) in eqs, under the path's antecedent.  (verdict, model).
-    Every equation is linear in the direction symbols `split_vars`; when the joint query is not decided
-    quickly it is split per equation and per unit direction (d := e_i), which is equivalent by linearity."""
+    Every equation is (multi)linear in each group of symbols in `groups` (directions, cotangents, ...); when the joint
+    query is not decided quickly it is split per equation and, group by group, per unit vector (d := e_i), which is
+    equivalent by linearity in that group."""
+    if groups is None:
+        groups = [g for g in (list(split_vars), list(split_vars2)) if g]
     ante = path.antecedent()
     diffs = []
     for a, b in eqs:
@@ -161,6 +164,34 @@ def prove_eqs(path, eqs, split_vars, out, opts, split_vars2=()):
     if r == "unsat":
         return r, None
     out.extra["split"] = out.extra.get("split", 0) + 1
+
+    def rec(d, level, fixed):
+        """decide d == 0 (d already specialised by `fixed`), splitting over groups[level:]"""
+        if z3.is_rational_value(d):
+            return ("unsat", None) if d.numerator_as_long() == 0 else ("sat", dict(fixed))
+        last = level >= len(groups)
+        r_, m_ = q(d != 0, opts["timeout_ms"] if last else fast, last)
+        if r_ == "sat":
+            m_ = dict(m_ or {})
+            m_.update(fixed)
+            return r_, m_
+        if r_ == "unsat" or last:
+            return r_, None
+        present = term_vars([d])
+        svs = [v for v in groups[level] if v.decl().name() in present]
+        if not svs:
+            return rec(d, level + 1, fixed)
+        for v in svs:
+            sub = [(w, z3.RealVal(1 if w.eq(v) else 0)) for w in svs]
+            di = z3.simplify(z3.substitute(d, *sub))
+            fx = dict(fixed)
+            for w in svs:
+                fx[w.decl().name()] = Fr(1 if w.eq(v) else 0)
+            r2, m2 = rec(di, level + 1, fx)
+            if r2 != "unsat":
+                return r2, m2
+        return "unsat", None
+
     for d in diffs:
         if len(diffs) > 1:
             r, m = q(d != 0, fast, False)
@@ -168,47 +199,62 @@ def prove_eqs(path, eqs, split_vars, out, opts, split_vars2=()):
                 return r, _small_model(path, d != 0, m, opts)
             if r == "unsat":
                 continue
-        present = term_vars([d])
-        svs = [v for v in split_vars if v.decl().name() in present]
-        if not svs:
-            r, m = q(d != 0, opts["timeout_ms"], True)
-            if r != "unsat":
-                return r, m
-            continue
-        for v in svs:
-            sub = [(w, z3.RealVal(1 if w.eq(v) else 0)) for w in svs]
-            di = z3.simplify(z3.substitute(d, *sub))
-            if z3.is_rational_value(di):
-                if di.numerator_as_long() == 0:
-                    continue
-            r, m = q(di != 0, fast if split_vars2 else opts["timeout_ms"], not split_vars2)
-            if r == "unknown" and split_vars2:
-                # second level: the residual is linear in the cotangent symbols as well
-                present2 = term_vars([di])
-                svs2 = [u for u in split_vars2 if u.decl().name() in present2]
-                r = "unsat"
-                for u in svs2:
-                    sub2 = [(w, z3.RealVal(1 if w.eq(u) else 0)) for w in svs2]
-                    dij = z3.simplify(z3.substitute(di, *sub2))
-                    if z3.is_rational_value(dij) and dij.numerator_as_long() == 0:
-                        continue
-                    r2, m2 = q(dij != 0, opts["timeout_ms"], True)
-                    if r2 == "sat":
-                        m2 = dict(m2 or {})
-                        for w in svs2:
-                            m2[w.decl().name()] = Fr(1 if w.eq(u) else 0)
-                        r, m = "sat", m2
-                        break
-                    if r2 == "unknown":
-                        return "unknown", None
-            if r == "sat":
-                m = dict(m or {})
-                for w in svs:
-                    m[w.decl().name()] = Fr(1 if w.eq(v) else 0)
-                return r, m
-            if r == "unknown":
-                return r, None
+        r, m = rec(d, 0, {})
+        if r != "unsat":
+            return r, m
     return "unsat", None
+
+
+def leaf_eqs(a, ma, b, mb):
+    """[(re_a, re_b), (im_a, im_b)] per leaf, for coefficient ma of a and mb of b; real leaves have im = 0"""
+    from .sym import re_im
+
+    la, lb = leaves(a), leaves(b)
+    if len(la) != len(lb):
+        raise ValueError("leaf count %d vs %d" % (len(la), len(lb)))
+    out = []
+    for x, y in zip(la, lb):
+        xr, xi = re_im(x)
+        yr, yi = re_im(y)
+        out.append((xr.co(ma), yr.co(mb)))
+        out.append((xi.co(ma), yi.co(mb)))
+    return out
+
+
+def cvals(obj, env, m=0):
+    """complex values of the leaves of a symbolic structure under env"""
+    from .sym import re_im
+
+    cache = {}
+    out = []
+    for e in leaves(obj):
+        r, i = re_im(e)
+        out.append(complex(evalf(r.co(m), env, cache), evalf(i.co(m), env, cache)))
+    return out
+
+
+def fvals(obj):
+    """(complex value, is_complex_typed) per leaf of a float structure"""
+    out = []
+    for e in leaves(obj):
+        out.append((complex(e), isinstance(e, (complex, onp.complexfloating))))
+    return out
+
+
+def cclose(sym_vals, float_vals, rtol=1e-6, atol=1e-8):
+    """symbolic complex values vs float leaves.  A float leaf of REAL dtype is compared with the real part only:
+    NumPy's float kernels drop imaginary parts when accumulating complex contributions into a real buffer, which the
+    object-dtype run cannot imitate (the kind itself is C05's business)."""
+    if len(sym_vals) != len(float_vals):
+        return False
+    for s_, (f_, is_c) in zip(sym_vals, float_vals):
+        if not is_c:
+            s_ = complex(s_.real, 0.0)
+        if s_ != s_ or f_ != f_:
+            return False
+        if abs(s_ - f_) > atol + rtol * max(abs(s_), abs(f_)):
+            return False
+    return True
 
 
 def dir_vars(x):
@@ -387,13 +433,13 @@ def _validate(cfg, out, p, env, want_vjp, want_jvp):
             msgs.append("oracle derivative: symbolic %s vs finite difference %s" % (dys[:4], fd[:4]))
         if want_vjp and "got" in res:
             yv, g, got = float_vjp(cfg, env)
-            gs = floats_of(res["got"], env, 0)
-            if not close(gs, flat_float(got), 1e-6, 1e-8):
+            gs = cvals(res["got"], env, 0)
+            if not cclose(gs, fvals(got)):
                 msgs.append("vjp: symbolic %s vs float64 %s" % (gs[:4], flat_float(got)[:4]))
         if want_jvp and "tan" in res:
             yv, v, tan = float_jvp(cfg, env)
-            ts = floats_of(res["tan"], env, 0)
-            if not close(ts, flat_float(tan), 1e-6, 1e-8):
+            ts = cvals(res["tan"], env, 0)
+            if not cclose(ts, fvals(tan)):
                 msgs.append("jvp: symbolic %s vs float64 %s" % (ts[:4], flat_float(tan)[:4]))
     except (Unsupported, KeyError) as e:
         return None
@@ -557,8 +603,8 @@ def _decide(cfg, out, paths, opts, mode):
                            "tangent structure %s differs from output structure %s" % (structure(tan), structure(y)),
                            structural=True)
                 return
-            # the tangent v is the direction d itself: tangent == f'(x; d) entry-wise
-            eqs = list(zip(coeffs(tan, 0), coeffs(y, 1)))
+            # the tangent v is the direction d itself: tangent == f'(x; d) entry-wise (as complex numbers)
+            eqs = leaf_eqs(tan, 0, y, 1)
         v, model = prove_eqs(p, eqs, dir_vars(x), out, opts, split_vars2=gvars if mode == "vjp" else ())
         if v == "unsat":
             continue
@@ -664,7 +710,13 @@ def replay_jvp(cfg, env, tol=1e-5):
         fd = float_dir_deriv(cfg, env)
     except NonSmooth as e:
         return False, str(e)
-    tf = flat_float(tan)
+    tf = []
+    for e_t, e_y in zip(leaves(tan), leaves(y)):
+        e_t = complex(e_t)
+        if isinstance(e_y, (complex, onp.complexfloating)):
+            tf.extend([e_t.real, e_t.imag])
+        else:
+            tf.append(e_t.real)
     scale = max([1.0] + [abs(a) for a in tf] + [abs(b) for b in fd])
     bad = len(tf) != len(fd) or any(math.isnan(a) or abs(a - b) > tol * 10 * scale for a, b in zip(tf, fd))
     return bad, "jvp=%s finite difference=%s" % ([round(a, 6) for a in tf[:6]], [round(b, 6) for b in fd[:6]])
@@ -1543,3 +1595,942 @@ def _sorted_leaves(v):
             o.extend(_sorted_leaves(e))
         return o
     return list(onp.ravel(onp.asarray(v, dtype=object)))
+
+
+# ----------------------------------------------------------------------------------------------
+# C16-A: every differential operator against ONE generic C^2 function (free symbols for value, Jacobian, Hessian)
+
+
+def check_operators(case, tier="quick"):
+    import autograd
+    from autograd.extend import defjvp, defvjp, primitive
+    from .enga import Config
+
+    insh, outsh = case
+    cfg = Config("operators", "OPS in=%s out=%s" % (list(insh) if insh != "s" else "scalar", list(outsh)), lambda np, x: x, [], 0)
+    opts = tier_opts(tier)
+    out = Outcome(cfg)
+    t0 = time.time()
+    anp = enga.anp
+    scalar_in = insh == "s"
+    ish = () if scalar_in else tuple(insh)
+    nin = len(ish)
+
+    frng = onp.random.RandomState(SEED + 7)
+
+    def body(concrete=False):
+        if concrete:
+            mk = lambda name, shape: frng.randn(*shape) if shape else onp.array(frng.randn())
+            mks = lambda name: float(frng.randn())
+        else:
+            mk = lambda name, shape: sym_array(name, shape)
+            mks = lambda name: sym(name)
+        y0 = mk("y", tuple(outsh))
+        J = mk("J", tuple(outsh) + ish)
+        Hraw = mk("H", tuple(outsh) + ish + ish)
+        no = len(outsh)
+        perm = tuple(range(no)) + tuple(range(no + nin, no + 2 * nin)) + tuple(range(no, no + nin))
+        H = Hraw + onp.transpose(Hraw, perm)  # symmetric in the two input index groups: F is C^2
+
+        @primitive
+        def F(x):
+            return y0.copy() if y0.shape else y0[()]
+
+        @primitive
+        def JF(x):
+            return J.copy()
+
+        defvjp(F, lambda ans, x: lambda g: anp.tensordot(g, JF(x), anp.ndim(g)))
+        defjvp(F, lambda v, ans, x: anp.tensordot(JF(x), v, nin))
+        defvjp(JF, lambda ans, x: lambda g: anp.tensordot(g, H, anp.ndim(g)))
+        defjvp(JF, lambda v, ans, x: anp.tensordot(H, v, nin))
+        x = mks("x") if scalar_in else mk("x", ish)
+        v = mks("v") if scalar_in else mk("v", ish)
+        g = mk("g", tuple(outsh))
+        eq = []
+        T = onp.tensordot
+
+        def add(name, lhs, rhs):
+            eq.append((name, lhs, rhs))
+
+        def attempt(name, fn, rhs):
+            try:
+                add(name, fn(), rhs)
+            except (Unsupported, Infeasible, PathLimit):
+                raise
+            except Exception as e:
+                eq.append((name, e, rhs))
+
+        Jx = J if not scalar_in else J
+        attempt("jacobian == J (shape out+in)", lambda: autograd.jacobian(F)(x), Jx)
+        attempt("make_jvp == (y, J v)", lambda: autograd.make_jvp(F)(x)(v)[1], T(J, v, nin))
+        attempt("make_jvp value untouched", lambda: autograd.make_jvp(F)(x)(v)[0], y0)
+        attempt("make_vjp value untouched", lambda: autograd.make_vjp(F)(x)[1], y0)
+        attempt("make_vjp == g J", lambda: autograd.make_vjp(F)(x)[0](g), T(g, J, no))
+        attempt("tensor_jacobian_product == g J", lambda: autograd.tensor_jacobian_product(F)(x, g), T(g, J, no))
+        attempt("vector_jacobian_product alias", lambda: autograd.vector_jacobian_product(F)(x, g), T(g, J, no))
+        attempt("elementwise_grad == sum over outputs of J", lambda: autograd.elementwise_grad(F)(x), onp.sum(J, axis=tuple(range(no))) if no else J)
+        attempt("make_jvp_reversemode == J v", lambda: autograd.differential_operators.make_jvp_reversemode(F)(x)(v), T(J, v, nin))
+        attempt("jacobian(jacobian) == H", lambda: autograd.jacobian(autograd.jacobian(F))(x), H)
+        if scalar_in or ish == ():
+            attempt("deriv == J (scalar input)", lambda: autograd.deriv(F)(x), J)
+        sc = lambda x_: anp.sum(F(x_) * g)
+        gJ = T(g, J, no)
+        Hs = T(g, H, no)
+        attempt("grad of scalar == g J", lambda: autograd.grad(sc)(x), gJ)
+        attempt("value_and_grad value", lambda: autograd.value_and_grad(sc)(x)[0], onp.sum(y0 * g))
+        attempt("value_and_grad grad", lambda: autograd.value_and_grad(sc)(x)[1], gJ)
+        attempt("grad_and_aux grad", lambda: autograd.grad_and_aux(lambda x_: (sc(x_), 7.5))(x)[0], gJ)
+        attempt("grad_and_aux aux untouched", lambda: onp.array(autograd.grad_and_aux(lambda x_: (sc(x_), 7.5))(x)[1]), onp.array(7.5))
+        attempt("hessian == g H", lambda: autograd.hessian(sc)(x), Hs)
+        attempt("hessian symmetric", lambda: autograd.hessian(sc)(x), onp.transpose(Hs, tuple(range(nin, 2 * nin)) + tuple(range(nin))))
+        attempt("hessian_tensor_product == (g H) v", lambda: autograd.hessian_tensor_product(sc)(x, v), T(Hs, v, nin))
+        attempt("hessian_vector_product alias", lambda: autograd.hessian_vector_product(sc)(x, v), T(Hs, v, nin))
+        attempt("make_hvp == (g H) v", lambda: autograd.make_hvp(sc)(x)[0](v), T(Hs, v, nin))
+        attempt("forward-over-reverse hvp", lambda: autograd.make_jvp(autograd.grad(sc))(x)(v)[1], T(Hs, v, nin))
+        attempt("reverse-over-forward hvp", lambda: autograd.grad(lambda x_: anp.sum(autograd.make_jvp(sc)(x_)(v)[1]))(x), T(Hs, v, nin))
+        if no >= 1:
+            # generalised Gauss-Newton with the default g(y) = 1/2 sum(y^2, axis=-1): GGN v = J^T J v
+            if no == 1:
+                attempt("make_ggnvp (default g) == J^T J v", lambda: autograd.make_ggnvp(F)(x)(v), T(T(J, v, nin), J, no))
+            attempt("make_ggnvp (explicit g = 1/2 |y|^2) == J^T J v", lambda: autograd.make_ggnvp(F, lambda y_: 0.5 * anp.sum(y_ ** 2))(x)(v), T(T(J, v, nin), J, no))
+        # argnum selection by position and by name, extra positional / keyword arguments
+        def F2(a, xx, b=None, scale=1.0):
+            return F(xx) * scale
+        attempt("jacobian wrt argnum 1 with extra args", lambda: autograd.jacobian(F2, 1)(3.0, x, b="unused", scale=2.0), 2.0 * Jx)
+        attempt("grad wrt argnum 1 of scalar", lambda: autograd.grad(lambda a, xx, k=1.0: sc(xx) * k, 1)(0.5, x, k=3.0), 3.0 * gJ)
+        attempt("grad_named", lambda: autograd.grad_named(lambda a, xx: sc(xx), "xx")(0.5, x), gJ)
+        attempt("tuple argnum gives a tuple", lambda: autograd.grad(lambda a, xx: sc(a) + 2.0 * sc(xx), (0, 1))(x, x)[1], 2.0 * gJ)
+        attempt("list argnum gives a tuple", lambda: autograd.grad(lambda a, xx: sc(a) + 2.0 * sc(xx), [1, 0])(x, x)[1], 1.0 * gJ)
+        return {"tag": "ok", "eq": eq, "args": [x]}
+
+    paths = explore_cfg(cfg, out, body, opts)
+    if paths is None:
+        out.time = time.time() - t0
+        return out
+    fails = []
+    for p in paths:
+        if p.err is not None:
+            out.status, out.detail = "error", "harness: body raised %s" % exc_sig(p.err)
+            break
+        for name, lhs, rhs in p.res["eq"]:
+            if isinstance(lhs, Exception):
+                fails.append("%s: raised %s" % (name, exc_sig(lhs)))
+                continue
+            a, b = onp.asarray(lhs, dtype=object), onp.asarray(rhs, dtype=object)
+            if a.shape != b.shape:
+                fails.append("%s: shape %s, expected %s" % (name, a.shape, b.shape))
+                continue
+            v_, model = prove_eqs(p, list(zip(coeffs(a), coeffs(b))), [], out, opts)
+            if v_ == "unknown":
+                out.status, out.detail = "inconclusive", "solver unknown on %s" % name
+                break
+            if v_ == "sat":
+                fails.append("%s: values differ" % name)
+        if out.status:
+            break
+        out.extra["claims"] = len(p.res["eq"])
+    if out.status is None:
+        # float64 replay of the same identities with random y, J, H (real NumPy arrays, real autograd)
+        ffails = []
+        try:
+            with warnings.catch_warnings():
+                warnings.simplefilter("ignore")
+                for name, lhs, rhs in body(concrete=True)["eq"]:
+                    if isinstance(lhs, Exception):
+                        ffails.append(name)
+                        continue
+                    a, b = onp.asarray(lhs, dtype=float), onp.asarray(rhs, dtype=float)
+                    if a.shape != b.shape or not onp.allclose(a, b, rtol=1e-9, atol=1e-9):
+                        ffails.append(name)
+        except Exception as e:
+            ffails.append("float64 replay raised %s" % exc_sig(e))
+        confirmed = [f for f in fails if f.split(":")[0] in ffails]
+        if confirmed:
+            out.status, out.detail = "violation", "; ".join(confirmed[:6])
+            out.cex = {"env": {}, "mode": "operators", "case": [list(insh) if insh != "s" else "s", list(outsh)]}
+        elif fails:
+            out.status, out.detail = "error", "identities fail on symbolic arrays but not on float64: " + "; ".join(fails[:4])
+        elif ffails:
+            out.status, out.detail = "error", "identities fail on float64 but not on symbolic arrays: " + "; ".join(ffails[:4])
+        else:
+            out.status = "holds"
+            out.validated += 1
+    out.time = time.time() - t0
+    return out
+
+
+# ----------------------------------------------------------------------------------------------
+# C09: holomorphic_grad equals the complex derivative
+
+
+def holo_cases():
+    return [
+        ("z*z", lambda np, z: z * z, lambda np, z: 2 * z),
+        ("z**3 + 2z", lambda np, z: z ** 3 + 2 * z, lambda np, z: 3 * z ** 2 + 2),
+        ("1/z", lambda np, z: 1.0 / z, lambda np, z: -1.0 / (z * z)),
+        ("(1+2j)*z*z + z", lambda np, z: (1 + 2j) * z * z + z, lambda np, z: (2 + 4j) * z + 1),
+        ("exp(z)", lambda np, z: np.exp(z), lambda np, z: np.exp(z)),
+        ("(z+1)/(z-1)", lambda np, z: (z + 1.0) / (z - 1.0), lambda np, z: -2.0 / ((z - 1.0) * (z - 1.0))),
+        ("sum over array z_k^2 elementwise", lambda np, z: z * z, lambda np, z: 2 * z),
+    ]
+
+
+def check_holo(case, tier="quick"):
+    import autograd
+    from .enga import Config
+
+    lab, f, fp = case
+    cfg = Config("holomorphic_grad", "HOLO " + lab, lambda np, z: f(np, z), [enga.CSC], 0)
+    opts = tier_opts(tier)
+    out = Outcome(cfg)
+    t0 = time.time()
+    anp = enga.anp
+
+    def body():
+        z = cfg.make_args()[0]
+        try:
+            got = autograd.holomorphic_grad(lambda w: f(anp, w))(z)
+        except (Unsupported, Infeasible, PathLimit):
+            raise
+        except Exception as e:
+            return {"tag": "raised", "exc": e, "args": [z]}
+        return {"tag": "ok", "got": got, "want": fp(onp, z), "args": [z]}
+
+    paths = explore_cfg(cfg, out, body, opts)
+    if paths is None:
+        out.time = time.time() - t0
+        return out
+    for p in paths:
+        if p.err is not None:
+            out.status, out.detail = "error", "harness: body raised %s" % exc_sig(p.err)
+            break
+        if p.res["tag"] == "raised":
+            out.status, out.detail = "violation", "holomorphic_grad raised %s" % exc_sig(p.res["exc"])
+            out.cex = {"env": {}, "mode": "holo"}
+            break
+        v_, model = prove_eqs(p, list(zip(coeffs(p.res["got"]), coeffs(p.res["want"]))), [], out, opts)
+        if v_ == "unknown":
+            out.status, out.detail = "inconclusive", "solver unknown"
+            break
+        if v_ == "sat":
+            # float replay
+            rng = _rng(cfg)
+            env = _Default({k_: float(x_) for k_, x_ in (model or {}).items() if "!" not in k_}, rng)
+            z0 = cfg.float_args(env)[0]
+            with warnings.catch_warnings():
+                warnings.simplefilter("ignore")
+                a = complex(autograd.holomorphic_grad(lambda w: f(anp, w))(z0))
+                b = complex(fp(onp, z0))
+            if abs(a - b) > 1e-7 * max(1.0, abs(b)):
+                out.status, out.detail = "violation", "holomorphic_grad(f)(%r) = %r but f'(z) = %r" % (z0, a, b)
+                out.cex = {"env": dict(env), "mode": "holo"}
+            elif p.abstracted:
+                out.status, out.detail = "inconclusive", "model under abstraction does not reproduce"
+            else:
+                out.status, out.detail = "error", "holomorphic counterexample does not reproduce"
+            break
+    if out.status is None:
+        out.status = "holds"
+        out.validated += 1
+    out.time = time.time() - t0
+    return out
+
+
+# ----------------------------------------------------------------------------------------------
+# C07: second-order, all four mode sequences, against the eps1*eps2 coefficient of NumPy's primal
+
+
+def check_second_order(cfg, tier="quick"):
+    from autograd import core
+
+    opts = tier_opts(tier)
+    out = Outcome(cfg)
+    t0 = time.time()
+    k = cfg.argnum
+    anp = enga.anp
+
+    def dir2(xd, m):
+        return tangent_m(xd, m)
+
+    def body():
+        dual = cfg.make_args(eps={k: {1: "u", 2: "w"}})
+        try:
+            y = getattr(cfg, "oracle", cfg.call)(onp, *dual)
+        except (Unsupported, Infeasible, PathLimit):
+            raise
+        except Exception as e:
+            return {"tag": "numpy_rejects", "exc": e}
+        plain = cfg.make_args()
+        f = lambda x: cfg.call(anp, *subst(plain, k, x))
+        u, w = tangent_m(dual[k], 1), tangent_m(dual[k], 2)
+        res = {"tag": "ok", "x": dual[k], "y": y, "args": dual, "u": u, "w": w}
+
+        def guard(name, fn):
+            try:
+                res[name] = fn()
+            except (Unsupported, Infeasible, PathLimit):
+                raise
+            except Exception as e:
+                res[name + "_exc"] = e
+
+        with warnings.catch_warnings():
+            warnings.simplefilter("ignore")
+            try:
+                yv = f(plain[k])
+            except (Unsupported, Infeasible, PathLimit):
+                raise
+            except Exception as e:
+                return {"tag": "raises", "exc": e}
+            g = sym_like(yv, "g")
+            res["g"] = g
+            jf = lambda x: core.make_jvp(f, x)(u)[1]  # x -> J(x) u
+            vf = lambda x: core.make_vjp(f, x)[0](g)  # x -> J(x)^T g
+            guard("ff", lambda: core.make_jvp(jf, plain[k])(w)[1])  # forward over forward: D2f[u, w]
+            guard("rf", lambda: core.make_vjp(jf, plain[k])[0](g))  # reverse over forward: d/dx <g, J u>
+            guard("fr", lambda: core.make_jvp(vf, plain[k])(w)[1])  # forward over reverse: d/dx (J^T g) . w
+            guard("rr", lambda: core.make_vjp(vf, plain[k])[0](u))  # reverse over reverse: d/dx <J^T g, u>
+        return res
+
+    paths = explore_cfg(cfg, out, body, opts)
+    if paths is None:
+        out.time = time.time() - t0
+        return out
+    nok = 0
+    done = []
+    for p in paths:
+        if p.err is not None:
+            out.status, out.detail = "error", "harness: body raised %s" % exc_sig(p.err)
+            break
+        res = p.res
+        if res["tag"] == "numpy_rejects":
+            out.status, out.detail = ("numpy_rejects" if _numpy_float_raises(cfg) else "inconclusive"), exc_sig(res["exc"])
+            break
+        if res["tag"] == "raises":
+            out.detail = exc_sig(res["exc"])
+            continue
+        r, m = witness(p, out, opts)
+        if r == "unsat":
+            out.paths_dropped += 1
+            continue
+        x, y, g, u, w = res["x"], res["y"], res["g"], res["u"], res["w"]
+        uv = [t for t in coeffs(u) if type(t) is not Fr and z3.is_const(t)]
+        wv = [t for t in coeffs(w) if type(t) is not Fr and z3.is_const(t)]
+        gv = [t for t in coeffs(g) if type(t) is not Fr and z3.is_const(t)]
+        try:
+            target = pair(g, y, 0, 3, conj_a=True)  # <g, D2f[u,w]>  (mask 3 = eps1*eps2 coefficient)
+        except ValueError as e:
+            out.status, out.detail = "inconclusive", "structure mismatch (decided by C05): %s" % e
+            break
+        claims = []
+        if "ff" in res:
+            try:
+                claims.append(("jvp-of-jvp == D2f[u,w]", leaf_eqs(res["ff"], 0, y, 3), [uv, wv]))
+            except ValueError as e:
+                claims.append(("jvp-of-jvp == D2f[u,w]", e, None))
+        for name, key, other in (("vjp-of-jvp", "rf", w), ("jvp-of-vjp", "fr", u), ("vjp-of-vjp", "rr", w)):
+            if key in res:
+                try:
+                    claims.append(("%s pairs to <g, D2f[u,w]>" % name, [(pair(res[key], other, 0, 0, conj_a=True), target)], [uv, wv, gv]))
+                except ValueError as e:
+                    claims.append((name, e, None))
+        if not claims:
+            out.detail = exc_sig(res.get("ff_exc") or res.get("rr_exc"))
+            continue
+        nok += 1
+        for name, eqs, groups in claims:
+            if isinstance(eqs, Exception):
+                out.status, out.detail = "inconclusive", "structure mismatch in %s (decided by C05): %s" % (name, eqs)
+                break
+            v_, model = prove_eqs(p, eqs, [], out, opts, groups=groups)
+            if v_ == "unknown":
+                out.status, out.detail = "inconclusive", "solver unknown on %s" % name
+                break
+            if v_ == "sat":
+                rep, info, env = replay_second(cfg, p, model or {}, name)
+                if rep:
+                    out.status, out.detail = "violation", "%s fails; %s" % (name, info)
+                    out.cex = {"env": env, "mode": "second", "claim": name, "info": info}
+                elif p.abstracted:
+                    out.status, out.detail = "inconclusive", "model under abstraction does not reproduce (%s)" % info
+                else:
+                    out.status, out.detail = "error", "second-order counterexample does not reproduce on float64: %s; %s" % (name, info)
+                break
+            done.append(name)
+        if out.status:
+            break
+        out.extra["modes_checked"] = sorted(set(c[0].split(" ")[0] for c in claims))
+        out.extra["modes_raising"] = sorted(k_[:-4] for k_ in res if k_.endswith("_exc"))
+    if out.status is None:
+        if nok == 0:
+            out.status = "raises"
+        else:
+            out.status = "holds"
+            out.validated += 1 if _validate_second(cfg) else 0
+    out.time = time.time() - t0
+    return out
+
+
+def tangent_m(xd, m):
+    """coefficient m (1: eps1, 2: eps2) of a dual argument as a plain symbolic structure"""
+    if isinstance(xd, S):
+        return S(xd.co(m))
+    if isinstance(xd, CS):
+        return CS(S(xd.re.co(m)), S(xd.im.co(m)))
+    if isinstance(xd, dict):
+        return {k_: tangent_m(v_, m) for k_, v_ in xd.items()}
+    if isinstance(xd, (tuple, list)):
+        return type(xd)(tangent_m(v_, m) for v_ in xd)
+    out = onp.empty(onp.shape(xd), dtype=object)
+    for i in onp.ndindex(*onp.shape(xd)):
+        out[i] = tangent_m(xd[i], m)
+    return out
+
+
+def _second_floats(cfg, env):
+    """float64: the four second-order objects and a finite-difference reference <g, D2f[u,w]>"""
+    from autograd import core
+
+    anp = enga.anp
+    k = cfg.argnum
+    fa = cfg.float_args(env)
+    f = lambda x: cfg.call(anp, *subst(fa, k, x))
+    u = cfg.float_dir(k, env, "u")
+    w = cfg.float_dir(k, env, "w")
+    with warnings.catch_warnings():
+        warnings.simplefilter("ignore")
+        yv = f(fa[k])
+        g = float_like(yv, "g", env)
+        jf = lambda x: core.make_jvp(f, x)(u)[1]
+        vf = lambda x: core.make_vjp(f, x)[0](g)
+        out = {}
+        for name, fn in (("ff", lambda: cdot(g, core.make_jvp(jf, fa[k])(w)[1])), ("rf", lambda: cdot(core.make_vjp(jf, fa[k])[0](g), w)),
+                         ("fr", lambda: cdot(core.make_jvp(vf, fa[k])(w)[1], u)), ("rr", lambda: cdot(core.make_vjp(vf, fa[k])[0](u), w))):
+            try:
+                out[name] = fn()
+            except Exception as e:
+                out[name] = None
+        # reference: central second difference of NumPy's function along u then w
+        h = 1e-3
+        F = lambda a, b: onp.array(flat_float(getattr(cfg, "oracle", cfg.call)(onp, *subst(fa, k, enga.add_scaled(enga.add_scaled(fa[k], u, a), w, b)))), dtype=float)
+        d2 = (F(h, h) - F(h, -h) - F(-h, h) + F(-h, -h)) / (4 * h * h)
+        d2b = (F(2 * h, 2 * h) - F(2 * h, -2 * h) - F(-2 * h, 2 * h) + F(-2 * h, -2 * h)) / (16 * h * h)
+        ref = (4 * d2 - d2b) / 3
+        smooth = float(onp.max(onp.abs(d2 - d2b), initial=0.0)) <= 1e-2 * max(1.0, float(onp.max(onp.abs(d2), initial=0.0)))
+        out["ref"] = cdot(g, unflat_like(list(ref), g))
+        out["smooth"] = smooth
+    return out
+
+
+def replay_second(cfg, p, model, name, tol=2e-4):
+    rng = _rng(cfg)
+    env = _Default({k_: float(v) for k_, v in model.items() if "!" not in k_}, rng)
+    try:
+        r = _second_floats(cfg, env)
+    except Exception as e:
+        return False, "float64 run raised %s" % exc_sig(e), dict(env)
+    if not r["smooth"]:
+        return False, "not a regular point for second differences", dict(env)
+    key = {"jvp-of-jvp": "ff", "vjp-of-jvp": "rf", "jvp-of-vjp": "fr", "vjp-of-vjp": "rr"}[name.split(" ")[0]]
+    val = r.get(key)
+    if val is None:
+        return False, "float64 %s raised" % key, dict(env)
+    sc = max(1.0, abs(val), abs(r["ref"]))
+    return abs(val - r["ref"]) > tol * sc * 10, "%s gives %.9g, second finite difference of NumPy's function gives %.9g" % (key, val, r["ref"]), dict(env)
+
+
+def _validate_second(cfg):
+    rng = _rng(cfg)
+    env = _Default({}, rng)
+    try:
+        r = _second_floats(cfg, env)
+        if not r["smooth"]:
+            return False
+        vals = [r[k_] for k_ in ("ff", "rf", "fr", "rr") if r.get(k_) is not None]
+        return all(abs(v - r["ref"]) <= 1e-3 * max(1.0, abs(r["ref"])) for v in vals)
+    except Exception:
+        return False
+
+
+# ----------------------------------------------------------------------------------------------
+# C13: vector-space axioms on symbolic vectors and scalars
+
+
+def vspace_cases(tier):
+    from .enga import R, Cx, SC, CSC
+
+    cases = [("real scalar", SC), ("complex scalar", CSC), ("0-d real", R()), ("real (2,)", R(2)), ("real (2,1,2)", R(2, 1, 2)), ("real size-0 (0,)", R(0)), ("real size-0 (2,0)", R(2, 0)),
+             ("complex (2,)", Cx(2)), ("complex 0-d", Cx()), ("complex (1,2)", Cx(1, 2)), ("complex size-0", Cx(0)),
+             ("tuple (array, scalar)", (R(2), SC)), ("list [array, complex array]", [R(2), Cx(2)]), ("dict {a: array, b: scalar}", {"a": R(2), "b": SC}),
+             ("nested tuple in list in dict", {"p": [(R(1), SC), R(2)], "q": CSC}), ("empty tuple", ()), ("tuple with empty list", (R(1), [])), ("empty dict", {})]
+    if tier == "thorough":
+        cases += [("real (2,3,2)", R(2, 3, 2)), ("complex (2,2)", Cx(2, 2)), ("deep nesting", ((R(1), (R(1), [R(1), {"z": SC}])),))]
+    return cases
+
+
+def check_vspace(case, tier="quick"):
+    from autograd.core import vspace
+    from .enga import Config, _build_sym
+
+    lab, spec = case
+    cfg = Config("vspace", "VS " + lab, lambda np, x: x, [], 0)
+    opts = tier_opts(tier)
+    out = Outcome(cfg)
+    t0 = time.time()
+
+    def body():
+        x, y, z = (_build_sym(spec, n_, None) for n_ in ("x", "y", "z"))
+        a, b = sym("a"), sym("b")
+        vs = vspace(x)
+        E = []
+
+        def eq(name, lhs, rhs):
+            E.append((name, lhs, rhs))
+
+        zero = vs.zeros()
+        eq("zeros is the additive identity", vs.add(x, zero), x)
+        eq("zeros is a left identity", vs.add(zero, x), x)
+        eq("addition commutes", vs.add(x, y), vs.add(y, x))
+        eq("addition associates", vs.add(vs.add(x, y), z), vs.add(x, vs.add(y, z)))
+        eq("mut_add on a fresh copy agrees with add", vs.mut_add(vs.add(x, vs.zeros()), y), vs.add(x, y))
+        eq("mut_add(None, x) == x", vs.mut_add(None, x), x)
+        eq("scalar_mul distributes over vectors", vs.scalar_mul(vs.add(x, y), a), vs.add(vs.scalar_mul(x, a), vs.scalar_mul(y, a)))
+        eq("scalar_mul distributes over scalars", vs.scalar_mul(x, a + b), vs.add(vs.scalar_mul(x, a), vs.scalar_mul(x, b)))
+        eq("scalar_mul composes", vs.scalar_mul(vs.scalar_mul(x, a), b), vs.scalar_mul(x, a * b))
+        eq("1 * x == x", vs.scalar_mul(x, 1.0), x)
+        eq("inner product symmetric", vs.inner_prod(x, y), vs.inner_prod(y, x))
+        eq("inner product real-bilinear", vs.inner_prod(vs.add(vs.scalar_mul(x, a), vs.scalar_mul(y, b)), z), a * vs.inner_prod(x, z) + b * vs.inner_prod(y, z))
+        eq("covector is an involution", vs.covector(vs.covector(x)), x)
+        basis = list(vs.standard_basis())
+        n = int(vs.size)
+        acc = vs.zeros()
+        for e in basis:
+            acc = vs.add(acc, vs.scalar_mul(e, vs.inner_prod(x, e)))
+        eq("standard basis is complete: sum <x,e_i> e_i == x", acc, x)
+        gram_bad = []
+        for i, ei in enumerate(basis):
+            for j, ej in enumerate(basis):
+                ip = vs.inner_prod(ei, ej)
+                if float(S.L(ip).c[0] if isinstance(ip, S) else ip) != (1.0 if i == j else 0.0):
+                    gram_bad.append((i, j))
+        xx = vs.inner_prod(x, x)
+        return {"tag": "ok", "E": E, "n": n, "nbasis": len(basis), "gram_bad": gram_bad, "xx": xx, "x": x, "args": [x, y, z],
+                "same_vs": vspace(x) == vspace(y), "zero_struct": _shape_struct(zero) == _shape_struct(x)}
+
+    paths = explore_cfg(cfg, out, body, opts)
+    if paths is None:
+        out.time = time.time() - t0
+        return out
+    fails = []
+    for p in paths:
+        if p.err is not None:
+            out.status, out.detail = "error", "harness: body raised %s" % exc_sig(p.err)
+            out.extra["trace"] = repr(p.err)
+            break
+        res = p.res
+        if res["nbasis"] != res["n"]:
+            fails.append("standard_basis has %d members but size is %d" % (res["nbasis"], res["n"]))
+        if res["gram_bad"]:
+            fails.append("standard basis not orthonormal at %s" % (res["gram_bad"][:3],))
+        if not res["same_vs"]:
+            fails.append("two values of identical structure have unequal vspaces")
+        if not res["zero_struct"]:
+            fails.append("zeros() does not have the value's structure")
+        for name, lhs, rhs in res["E"]:
+            if structure(lhs)[:2] != structure(rhs)[:2] and not isinstance(lhs, (S, CS)):
+                fails.append("%s: structure %s vs %s" % (name, structure(lhs), structure(rhs)))
+                continue
+            try:
+                eqs = leaf_eqs(lhs, 0, rhs, 0)
+            except ValueError as e:
+                fails.append("%s: %s" % (name, e))
+                continue
+            v_, model = prove_eqs(p, eqs, [], out, opts)
+            if v_ == "unknown":
+                out.status, out.detail = "inconclusive", "solver unknown on %s" % name
+                break
+            if v_ == "sat":
+                fails.append("%s: fails for %s" % (name, {k_: str(v) for k_, v in list((model or {}).items())[:6]}))
+        if out.status:
+            break
+        # positive definiteness: x != 0  =>  <x,x> > 0
+        comps = [t for t in coeffs(res["x"]) if type(t) is not Fr]
+        if comps:
+            xx = res["xx"]
+            xt = xx.c[0] if isinstance(xx, S) else S.L(xx).c[0]
+            r_, m_, _ = solve.check(p.antecedent() + [z3.Or([c != 0 for c in comps]), toz(xt) <= 0], timeout_ms=opts["timeout_ms"])
+            out.queries += 1
+            out.verdicts[r_] += 1
+            if r_ == "sat":
+                fails.append("inner product not positive definite")
+            elif r_ == "unknown":
+                out.status, out.detail = "inconclusive", "solver unknown on positive definiteness"
+                break
+    if out.status is None:
+        if fails:
+            out.status, out.detail = "violation", "; ".join(fails[:5])
+            out.cex = {"env": {}, "mode": "vspace"}
+        else:
+            out.status = "holds"
+            out.validated += 1
+    out.time = time.time() - t0
+    return out
+
+
+def _shape_struct(a):
+    """nesting + shapes only (the real/complex kind of an all-zero object array is not observable)"""
+    st = structure(a)
+    if st[0] == "array":
+        return st[:2]
+    if st[0] == "dict":
+        return ("dict", tuple((k_, _shape_struct(a[k_])) for k_ in sorted(a, key=repr)))
+    return (st[0], tuple(_shape_struct(e) for e in a))
+
+
+def vspace_pairs_check():
+    """vspace(a) == vspace(b) iff same structure / shape / dtype-kind; mut_add(None, x) shares no memory with x.
+    Concrete (float64) part of C13: these clauses are about dtypes and memory, which symbolic arrays cannot show."""
+    from autograd.core import vspace
+
+    vals = {
+        "f64 (2,)": onp.zeros(2), "f64 (2,) b": onp.ones(2), "f64 (1,2)": onp.zeros((1, 2)), "f64 ()": onp.zeros(()), "f32 (2,)": onp.zeros(2, dtype=onp.float32),
+        "c128 (2,)": onp.zeros(2, dtype=complex), "c64 (2,)": onp.zeros(2, dtype=onp.complex64), "f16 (2,)": onp.zeros(2, dtype=onp.float16), "longdouble (2,)": onp.zeros(2, dtype=onp.longdouble),
+        "float": 1.5, "float b": 2.5, "complex": 1 + 2j, "np.float64": onp.float64(2.0), "f64 (0,)": onp.zeros(0), "f64 (2,0)": onp.zeros((2, 0)),
+        "tuple": (onp.zeros(2), 1.0), "tuple b": (onp.ones(2), 3.0), "list": [onp.zeros(2), 1.0], "tuple other shape": (onp.zeros(3), 1.0), "dict": {"a": onp.zeros(2)}, "dict b": {"a": onp.ones(2)},
+        "dict other key": {"b": onp.zeros(2)}, "empty tuple": (), "empty list": [],
+    }
+    same = {("f64 (2,)", "f64 (2,) b"), ("float", "float b"), ("tuple", "tuple b"), ("dict", "dict b"), ("float", "np.float64"), ("float b", "np.float64"),
+            ("f64 ()", "float"), ("f64 ()", "float b"), ("f64 ()", "np.float64")}  # a 0-d float64 array and a Python float have the same shape () and dtype
+    fails = []
+    names = list(vals)
+    n = 0
+    for i, a in enumerate(names):
+        for b in names[i:]:
+            n += 1
+            want = a == b or (a, b) in same or (b, a) in same
+            try:
+                got = vspace(vals[a]) == vspace(vals[b])
+            except Exception as e:
+                fails.append("vspace(%s) == vspace(%s) raised %s" % (a, b, exc_sig(e)))
+                continue
+            if bool(got) != want:
+                fails.append("vspace(%s) == vspace(%s) is %s, expected %s" % (a, b, got, want))
+    for name in ("f64 (2,)", "c128 (2,)", "f32 (2,)", "f64 (1,2)", "tuple", "dict", "list", "f64 (0,)"):
+        x = vals[name]
+        vs = vspace(x)
+        r = vs.mut_add(None, x)
+        for u, v in zip(leaves_raw(r), leaves_raw(x)):
+            n += 1
+            if isinstance(u, onp.ndarray) and isinstance(v, onp.ndarray) and (u is v or onp.shares_memory(u, v)):
+                fails.append("mut_add(None, x) shares memory with x for %s" % name)
+            if isinstance(u, onp.ndarray) and isinstance(v, onp.ndarray) and (u.dtype != v.dtype or u.shape != v.shape):
+                fails.append("mut_add(None, x) changed dtype/shape for %s: %s%s vs %s%s" % (name, u.dtype, u.shape, v.dtype, v.shape))
+    return n, fails
+
+
+def leaves_raw(v):
+    if isinstance(v, dict):
+        o = []
+        for k_ in sorted(v):
+            o.extend(leaves_raw(v[k_]))
+        return o
+    if isinstance(v, (tuple, list)):
+        o = []
+        for e in v:
+            o.extend(leaves_raw(e))
+        return o
+    return [v]
+
+
+# ----------------------------------------------------------------------------------------------
+# C14: independent / piecewise-constant dependence yields an exact zero derivative
+
+
+def nograd_templates():
+    """(name, call) templates for the members of nograd_functions; the list of names is read from the module at run time"""
+    T = {}
+    un = lambda n: [("%s(x)" % n, lambda np, x, _n=n: getattr(np, _n)(x))]
+    for n in ["floor", "ceil", "round", "rint", "around", "fix", "trunc", "sign", "isfinite", "isinf", "isnan", "isneginf", "isposinf", "iscomplexobj", "iscomplex", "isreal", "isscalar",
+              "zeros_like", "ones_like", "ndim", "shape", "size", "argmax", "argmin", "argsort", "nonzero", "flatnonzero", "count_nonzero", "argwhere", "logical_not", "all", "any", "result_type"]:
+        T[n] = un(n)
+    for n in ["greater", "greater_equal", "less", "less_equal", "equal", "not_equal", "logical_and", "logical_or", "logical_xor", "floor_divide", "allclose", "isclose", "array_equal", "array_equiv"]:
+        T[n] = [("%s(x, y)" % n, lambda np, x, y, _n=n: getattr(np, _n)(x, y)), ("%s(x, 0.5)" % n, lambda np, x, _n=n: getattr(np, _n)(x, 0.5))]
+    T["argpartition"] = [("argpartition(x, 1)", lambda np, x: np.argpartition(x, 1))]
+    T["searchsorted"] = [("searchsorted(sorted, x)", lambda np, x: np.searchsorted(onp.array([-1.0, 0.0, 1.0]), x))]
+    T["argmax"].append(("x.argmax() method", lambda np, x: x.argmax()))
+    T["round"].append(("x.round() method", lambda np, x: x.round()))
+    T["all"].append(("x.all() method", lambda np, x: x.all()))
+    return T
+
+
+def zero_cases(tier):
+    """programs whose output is independent of the argument, or depends on it only through non-differentiable functions"""
+    from .enga import R, SC
+
+    c = []
+    c.append(("constant array", lambda np, x: onp.array([1.0, 2.0]) * 3.0, R(2)))
+    c.append(("constant scalar", lambda np, x: 5.0, R(2)))
+    c.append(("floor(x)", lambda np, x: np.floor(x) * 2.0, R(2)))
+    c.append(("(x > 0) * 1.0", lambda np, x: (x > 0) * 1.0, R(2)))
+    c.append(("sign(x) + round(x)", lambda np, x: np.sign(x) + np.round(x), R(2)))
+    c.append(("sum of argsort", lambda np, x: 1.0 * np.sum(np.argsort(x)), R(3)))
+    c.append(("depends on another array only", lambda np, x, y: y * 2.0, R(2), R(2)))
+    c.append(("shape / ndim / size queries", lambda np, x: 1.0 * np.ndim(x) + np.shape(x)[0] + np.size(x) + x.shape[0] + x.ndim + len(x), R(2)))
+    c.append(("scalar argument, constant output", lambda np, x: 2.0, SC))
+    c.append(("container argument, constant output", lambda np, t: onp.ones(2), (R(2), SC)))
+    c.append(("dict argument, piecewise constant", lambda np, d: np.floor(d["a"]), {"a": R(2), "b": R(1)}))
+    c.append(("value-dependent branch to constants", lambda np, x: 1.0 if x[0] > x[1] else 2.0, R(2)))
+    c.append(("zeros_like / ones_like", lambda np, x: np.zeros_like(x) + np.ones_like(x), R(2)))
+    return c
+
+
+def _is_exact_zero(v):
+    for e in leaves(v):
+        for part in re_im_parts(e):
+            if not (type(part) is Fr and part == 0):
+                return False
+    return True
+
+
+def re_im_parts(e):
+    from .sym import re_im
+
+    if isinstance(e, (S, CS)):
+        r, i = re_im(e)
+        return [r.co(0), i.co(0)]
+    if isinstance(e, Box_types()):
+        return ["BOX"]
+    try:
+        c = complex(e)
+        return [Fr(c.real) if c.real == int(c.real) else "nz", Fr(0) if c.imag == 0 else "nz"]
+    except Exception:
+        return ["?"]
+
+
+def Box_types():
+    from autograd.tracer import Box
+
+    return (Box,)
+
+
+def contains_box(v):
+    from autograd.tracer import isbox
+
+    if isbox(v):
+        return True
+    if isinstance(v, dict):
+        return any(contains_box(e) for e in v.values())
+    if isinstance(v, (tuple, list)):
+        return any(contains_box(e) for e in v)
+    if isinstance(v, onp.ndarray) and v.dtype == object:
+        return any(isbox(e) for e in v.ravel())
+    return False
+
+
+def check_nograd(item, tier="quick"):
+    """nograd function under both modes: unboxed value equal to NumPy's, and the oracle says it is locally constant"""
+    from autograd import core
+    from .enga import Config, R
+
+    name, lab, call, nargs = item
+    cfg = Config("nograd:" + name, "NOGRAD " + lab, call, [R(3)] * nargs, 0)
+    opts = tier_opts(tier)
+    out = Outcome(cfg)
+    t0 = time.time()
+    anp = enga.anp
+
+    def body():
+        dual = cfg.make_args(eps={0: {1: "d"}})
+        try:
+            y = call(onp, *dual)
+        except (Unsupported, Infeasible, PathLimit):
+            raise
+        except Exception as e:
+            return {"tag": "numpy_rejects", "exc": e}
+        plain = cfg.make_args()
+        seen = {}
+
+        def f(x):
+            # the non-differentiable function is called INSIDE a differentiated function on the traced value; its result
+            # must be a plain value (so that Python control flow, indexing, shapes ... work) equal to NumPy's
+            r = call(anp, *subst(plain, 0, x))
+            seen["r"] = r
+            return x * 1.0
+
+        res = {"tag": "ok", "y": y, "args": dual}
+        with warnings.catch_warnings():
+            warnings.simplefilter("ignore")
+            for mode in ("vjp", "jvp"):
+                try:
+                    if mode == "vjp":
+                        vjp, val = core.make_vjp(f, plain[0])
+                        vjp(sym_like(val, "g"))
+                    else:
+                        val, tan = core.make_jvp(f, plain[0])(tangent_of(dual[0]))
+                    res[mode + "_inner_box"] = contains_box(seen["r"])
+                    res[mode + "_val"] = seen["r"]
+                except (Unsupported, Infeasible, PathLimit):
+                    raise
+                except Exception as e:
+                    res[mode + "_exc"] = e
+        return res
+
+    paths = explore_cfg(cfg, out, body, opts)
+    if paths is None:
+        out.time = time.time() - t0
+        return out
+    fails = []
+    nok = 0
+    for p in paths:
+        if p.err is not None:
+            out.status, out.detail = "error", "harness: body raised %s" % exc_sig(p.err)
+            break
+        res = p.res
+        if res["tag"] == "numpy_rejects":
+            out.status, out.detail = "numpy_rejects", exc_sig(res["exc"])
+            break
+        r, m = witness(p, out, opts)
+        if r == "unsat":
+            continue
+        nok += 1
+        y = res["y"]
+        # oracle: locally constant  (every eps coefficient of NumPy's own result is exactly 0)
+        for e in leaves(y):
+            if isinstance(e, (S, CS)):
+                from .sym import re_im
+                for part in re_im(e):
+                    t = part.co(1)
+                    if not (type(t) is Fr and t == 0):
+                        fails.append("NumPy's %s is NOT locally constant on this path (d-coefficient %s): it should not be in nograd_functions" % (name, t))
+        for mode in ("vjp", "jvp"):
+            if mode + "_exc" in res:
+                fails.append("%s under %s raised %s" % (name, mode, exc_sig(res[mode + "_exc"])))
+                continue
+            if res.get(mode + "_inner_box"):
+                fails.append("%s returned a traced (boxed) value inside the %s trace" % (name, mode))
+            val = res.get(mode + "_val")
+            if contains_box(val):
+                fails.append("value returned under %s contains a Box" % mode)
+            else:
+                try:
+                    if not _numeric(y):
+                        if repr(val) != repr(y):
+                            fails.append("value under %s is %r, NumPy gives %r" % (mode, val, y))
+                    elif structure(val)[:2] != structure(y)[:2]:
+                        fails.append("value under %s has structure %s, NumPy gives %s" % (mode, structure(val), structure(y)))
+                    else:
+                        v_, _m = prove_eqs(p, leaf_eqs(val, 0, y, 0), [], out, opts)
+                        if v_ == "sat":
+                            fails.append("value under %s differs from NumPy's" % mode)
+                except ValueError as e:
+                    fails.append("value under %s: %s" % (mode, e))
+        if "vjp_zero" in res and not _is_exact_zero(res["vjp_zero"]):
+            fails.append("vjp is not an exact zero: %s" % (res["vjp_zero"],))
+        if "jvp_tan" in res and not _is_exact_zero(res["jvp_tan"]):
+            fails.append("jvp tangent is not an exact zero: %s" % (res["jvp_tan"],))
+        if fails:
+            break
+    if out.status is None:
+        if fails:
+            out.status, out.detail = "violation", "; ".join(fails[:4])
+            out.cex = {"env": {}, "mode": "nograd"}
+        elif nok:
+            out.status = "holds"
+            out.validated += 1
+        else:
+            out.status = "error"
+    out.time = time.time() - t0
+    return out
+
+
+def _numeric(v):
+    try:
+        for e in leaves(v):
+            if not isinstance(e, (S, CS, int, float, complex, bool, onp.number, onp.bool_)):
+                return False
+        return True
+    except Exception:
+        return False
+
+
+def check_zero(case, tier="quick"):
+    """every operator returns an exact structural zero (never None / error) when the output does not depend on the argument"""
+    import autograd
+    from .enga import Config
+
+    lab, call = case[0], case[1]
+    specs = list(case[2:])
+    cfg = Config("zero", "ZERO " + lab, call, specs, 0)
+    opts = tier_opts(tier)
+    out = Outcome(cfg)
+    t0 = time.time()
+    anp = enga.anp
+
+    def body():
+        plain = cfg.make_args()
+        f = lambda x: call(anp, *subst(plain, 0, x))
+        x = plain[0]
+        res = {"tag": "ok", "args": plain, "x": x, "ops": {}}
+        y = call(onp, *plain)
+        res["y"] = y
+        scalar_out = onp.shape(y) == () and not isinstance(y, (tuple, list, dict))
+        array_in = not isinstance(x, (tuple, list, dict))
+
+        def attempt(name, fn, like):
+            try:
+                with warnings.catch_warnings():
+                    warnings.simplefilter("ignore")
+                    res["ops"][name] = (fn(), like)
+            except (Unsupported, Infeasible, PathLimit):
+                raise
+            except Exception as e:
+                res["ops"][name] = (e, like)
+
+        attempt("make_vjp", lambda: autograd.make_vjp(f)(x)[0](y if not scalar_out else 1.0), x)
+        attempt("make_jvp", lambda: autograd.make_jvp(f)(x)(x)[1], y)
+        attempt("elementwise_grad", lambda: autograd.elementwise_grad(f)(x), x)
+        if scalar_out:
+            attempt("grad", lambda: autograd.grad(f)(x), x)
+            attempt("value_and_grad", lambda: autograd.value_and_grad(f)(x)[1], x)
+            if array_in:
+                attempt("hessian", lambda: autograd.hessian(f)(x), None)
+        if array_in:
+            attempt("jacobian", lambda: autograd.jacobian(f)(x), None)
+            if onp.shape(x) == ():
+                attempt("deriv", lambda: autograd.deriv(f)(x), y)
+        return res
+
+    paths = explore_cfg(cfg, out, body, opts)
+    if paths is None:
+        out.time = time.time() - t0
+        return out
+    fails = []
+    for p in paths:
+        if p.err is not None:
+            out.status, out.detail = "error", "harness: body raised %s" % exc_sig(p.err)
+            break
+        for name, (val, like) in p.res["ops"].items():
+            if isinstance(val, Exception):
+                fails.append("%s raised %s" % (name, exc_sig(val)))
+            elif val is None:
+                fails.append("%s returned None" % name)
+            elif contains_box(val):
+                fails.append("%s returned a Box" % name)
+            elif not _is_exact_zero(val):
+                fails.append("%s is not an exact zero: %r" % (name, val))
+            elif like is not None and _shape_struct(val) != _shape_struct(like):
+                fails.append("%s returned a zero of structure %s, expected %s" % (name, _shape_struct(val), _shape_struct(like)))
+            elif like is None and name == "jacobian" and tuple(onp.shape(val)) != tuple(onp.shape(p.res["y"])) + tuple(onp.shape(p.res["x"])):
+                fails.append("jacobian zero has shape %s" % (onp.shape(val),))
+        if fails:
+            break
+    if out.status is None:
+        if fails:
+            # float64 confirmation
+            out.status, out.detail = "violation", "; ".join(fails[:4])
+            out.cex = {"env": {}, "mode": "zero"}
+        else:
+            out.status = "holds"
+            out.validated += 1
+    out.time = time.time() - t0
+    return out
